@@ -31,7 +31,7 @@ def plan(tier):
 
 
 def required_counters(tier):
-    return ["aligned_calls_returned", "perturbed_calls", "perturbed_rejected", "index_perturbations", "length_perturbations", "extension_bool_masks"]
+    return ["aligned_calls_returned", "perturbed_calls", "perturbed_rejected", "index_perturbations", "length_perturbations", "extension_bool_masks", "aligned_equal_index_calls", "multiindex_keys"]
 
 
 def _gb_ops():
@@ -147,6 +147,13 @@ def check(case, ctx):
     codes[:3] = [0, 1, 2][: min(3, n)]
     lab = np.array(["a", "b", "c"])[codes] if case["keykind"] == "str" else (codes * 10).astype("int64")
     index = pd.Index(rng.permutation(n) * 2 + 100) if pdk else None
+    rebuilt = None
+    if pdk and case.get("index_kind") == "multi":
+        # a two-level index cut out of a larger frame: it still carries the level entries of the rows that are gone
+        tuples = [(int(q) // 3, "xyz"[int(q) % 3]) for q in rng.permutation(n)]
+        index = pd.MultiIndex.from_tuples(tuples + [(1000 + i, "w") for i in range(n)], names=["i0", "i1"])[:n]
+        rebuilt = pd.MultiIndex.from_tuples(tuples, names=["i0", "i1"])  # the same labels, encoded afresh
+        ctx.count("multiindex_keys")
     W = (lambda x, name=None: pd.Series(x, index=index, name=name)) if pdk else (lambda x, name=None: x)
     keys = W(lab, "k")
     keys2 = W(np.array(["x", "y"])[rng.integers(0, 2, size=n)], "k2")
@@ -193,6 +200,20 @@ def check(case, ctx):
     if lib.raised(base):
         return [{"monitor": "c18.aligned_rejected", "sig": f"{op}|{type(base.exc).__name__}", "detail": f"aligned call {op} (keys {'pandas' if pdk else 'numpy'}, n={n}) raised {base!r}"}]
     ctx.count("aligned_calls_returned")
+    # ---- the converse: an index that is EQUAL to the keys' index (another object, or the same labels encoded differently) is aligned
+    if pdk and (not standalone or op.startswith("crosstab")):
+        for arg in argnames:
+            if not isinstance(a0.get(arg), pd.Series) or arg == "keys":
+                continue
+            for how in ("copy", "rebuilt"):
+                same = index.copy() if how == "copy" else (rebuilt if rebuilt is not None else pd.Index(index.tolist()))
+                a1 = dict(a0)
+                a1[arg] = a0[arg].set_axis(same)
+                r = lib.call(fn, GroupBy(keys) if not standalone else gb, a1)
+                ctx.count("aligned_equal_index_calls")
+                if lib.raised(r):
+                    return [{"monitor": "c18.aligned_rejected", "sig": f"{op}|{arg}|equal_index", "detail": f"{op}: argument '{arg}' carrying an index equal to the keys' index ({how}, "
+                             f"{type(index).__name__}) was rejected: {r!r}"}]
     for arg in argnames:
         if a0.get(arg) is None:
             continue
@@ -244,7 +265,7 @@ def run(ctx):
                 if vk == "dt" and (op.split("_T")[0] in ("sum", "var", "std", "median", "quantile", "agg", "apply", "ratio", "subset_ratio", "density", "cumsum", "sum_two", "nearby",
                                                          "rolling_sum", "rolling_mean", "rolling_sum_bg", "ema", "ema_timed", "ema_bg", "mean") or op.startswith(("nb.", "ema_", "crosstab"))):
                     vk = "float"
-                case = {"op": op, "n": int(rng.integers(4, 12)), "pd_keys": pdk, "keykind": gen.pick(rng, ["int", "str"]), "vkind": vk,
+                case = {"op": op, "n": int(rng.integers(4, 12)), "pd_keys": pdk, "index_kind": gen.pick(rng, ["flat", "flat", "multi"]) if pdk else "flat", "keykind": gen.pick(rng, ["int", "str"]), "vkind": vk,
                         "with_mask": True, "seed": int(rng.integers(1 << 30)), "standalone_pd": bool(rng.random() < 0.5), "noshrink": True,
                         "mask_dtype": gen.pick(rng, ["bool", "bool", "boolean", "bool[pyarrow]"]) if pdk and not op.startswith(("nb.", "ema_grouped", "crosstab")) else "bool"}
                 ctx.run_case(case, check, features, nontrivial)
